@@ -22,6 +22,8 @@
 
 pub mod havoc;
 pub use havoc::Havoc;
+pub mod vkey;
+pub use vkey::VKey;
 
 #[cfg(not(verif_replay))]
 mod map;
@@ -33,6 +35,7 @@ mod std_map;
 #[cfg(verif_replay)]
 pub use std_map::*;
 
+pub mod bitset;
 pub mod exec;
 pub mod vvec;
 
